@@ -110,15 +110,18 @@ PROPS = {
         "test_drivers": {"terwaycli.test": "./cmd/terway-cli/"},
         "required": ["C20.c20_empty_overlay", "C20.c20_absent_keeps", "C20.c20_present_wins", "C20.c20_null_deletes", "C20.c20_idempotent",
                      "C20.c20_idempotent_needs_clean_arrays", "C20.c20_chain_order", "C20.c20_chain_domain", "C20.c20_no_chainer_without_ebpf",
-                     "C20.c20_chainer_when_required", "C20.c20_datapath_decision", "C20.c20_allow_ebpf_table"],
+                     "C20.c20_chainer_when_required", "C20.c20_datapath_decision", "C20.c20_allow_ebpf_table",
+                     "C20.c20_generated_file_is_the_new_list", "C20.c20_generated_file_ignores_previous", "C20.c20_overwrite_keeps_tail"],
         "rule": "(1) base/overlay documents: eni_conf-shaped documents (with null members in overlays), random trees of depth <= 4 over 14 shared keys, empty overlays, null-free overlays; "
                 "merged with evanphx MergePatch and compared (canonical, keys sorted) with the Lean model; the real MergeConfigAndUnmarshal is checked at Config level against an independent RFC 7396 reference, "
                 "for the empty overlay and for idempotence. (2) plugin lists of 0-4 plugins (terway with 11 virtual-type spellings x 6 provider values, cilium-cni, other, malformed) x kernel features x policy switch x "
                 "datapath-v2 switch x recorded capability x cilium_net link presence, run through the real mergeConfigList by the tagged test driver in private mount+network namespaces; every generated list without a chainer then goes through the second step of `terway-cli cni`, storeRuntimeConfig, under recover (driver outcome panic:store, monitor C20/chain/panic). "
+                "One list in four goes through the whole first step instead (op cni.gen, the real processInput): the plugin list is written as the mounted ConfigMap under /etc/eni (tmpfs in the driver's mount namespace; 10-terway.conflist, or 10-terway.conf alone for a single plugin; disable_network_policy; eni_conf), the kernel-version check and bpftool are answered by the op, "
+                "and --output names a file an earlier run left (none / a shorter document / a longer valid list, drawn 1:1:2); the outcome is what a reader of that file gets, compared with the model's generate (the new list, whatever was there). "
                 "non-trivial = non-empty overlay that merges / chain with at least one output plugin; distinct = distinct op line.",
         "technique": "Lean 4 theorems over a structural model of evanphx merge patch (nested-inductive JSON) and a fold model of mergeConfigList with invariants; differential correspondence incl. an out-of-process package-main driver",
         "level_text": "Theorems for all documents / plugin lists / feature combinations over the models; see Props/C20.lean. Tied to types/daemon/config.go (via jsonpatch and the real MergeConfigAndUnmarshal) and to cmd/terway-cli mergeConfigList by differential runs.",
-        "level_note": "Trusted: Lean kernel; Model/Json.lean, Model/CniChain.lean hand-written; encoding/json decoding into Config, gabs, the ini capability file and netlink link probing are library/OS behaviour outside the model; "
+        "level_note": "Trusted: Lean kernel; Model/Json.lean, Model/CniChain.lean hand-written; encoding/json decoding into Config, gabs, the ini capability file and netlink link probing are library/OS behaviour outside the model; the output file is a byte list the run replaces (os.WriteFile's truncation is the model's writeFile; a crash in the middle of the write is not modelled); "
                       "switchDataPathV2 is an input of the model (its own feature-gate/link logic is not modelled); numbers are integers and strings ASCII in the correspondence.",
         "assumptions": ["JSON objects have distinct keys after decoding (Go map semantics)", "encoding/json is correct"],
         "trusted_base": ["Model/Json.lean, Model/CniChain.lean (hand-written)", "hook cmd/terway-cli/zz_verif_driver_test.go"],
